@@ -581,8 +581,10 @@ SKELETONS = [
         ("pending", r"\.pending\s*\("), ("flush", r"\.flush\s*\(")]),
     # `pending()`: drain, then a scanner over the whole slot table - nothing cached, nothing narrowed
     ("src/iterator/backend.rs", "pending", [
-        ("flush", r"\.flush\s*\("), ("scanner.all", r"Pending::new\s*\(\s*Arc::clone\s*\(\s*&self\.pending\s*\)\s*\)"),
-        ("scanner.other", r"Pending::new\s*\((?!\s*Arc::clone\s*\(\s*&self\.pending\s*\)\s*,?\s*\))|Pending\s*\{"),
+        # one argument - the shared slots, cloned in place or through a local: what matters is that nothing else
+        # (a range, a limit) goes into the scanner
+        ("flush", r"\.flush\s*\("), ("scanner.all", r"Pending::new\s*\(\s*(?:Arc::clone\s*\(\s*&self\.pending\s*\)|\w+)\s*\)"),
+        ("scanner.other", r"Pending::new\s*\((?!\s*(?:Arc::clone\s*\(\s*&self\.pending\s*\)|\w+)\s*,?\s*\))|Pending\s*\{"),
         ("conditional", r"\bif\b|\bmatch\b|\breturn\b")]),
     ("src/iterator/backend.rs", "next", [
         ("bound.slots", r"while\s+self\.position\s*<\s*self\.pending\.slots\.len\s*\(\s*\)\s*\{"),
